@@ -50,12 +50,21 @@ def build(style, n, ret, seen, rename=False, dflt=False):
         kw['_in_variable_names'] = {'a1': 'from'}
     if style == 'out_bare':
         kw['_body_style'] = 'out_bare'
-    elif style in ('empty', 'bare', 'bare_rec'):
+    elif style in ('empty', 'bare', 'bare_rec', 'bare_inh'):
         kw['_body_style'] = 'bare'
     if style == 'bare':
         class C(ComplexModel):
             __namespace__ = 'tns'
             _type_info = [('a1', Integer), ('a2', Integer)]
+        argt = [C]
+    elif style == 'bare_inh':
+        class CBase(ComplexModel):
+            __namespace__ = 'tns'
+            _type_info = [('a1', Integer)]
+
+        class C(CBase):
+            __namespace__ = 'tns'
+            _type_info = [('a2', Integer)]
         argt = [C]
     elif style == 'bare_rec':
         from spyne import SelfReference
@@ -76,7 +85,7 @@ def build(style, n, ret, seen, rename=False, dflt=False):
             nxt = None if c is None else c.a1
             # (what the function sees of its one argument: the value inside the field a1, and the field a2)
             seen.append([-1 if nxt is None or nxt.a2 is None else nxt.a2, -1 if c is None or c.a2 is None else c.a2][:n])
-        elif style == 'bare':
+        elif style in ('bare', 'bare_inh'):
             c = args[0]
             seen.append([-1 if c is None or c.a1 is None else c.a1, -1 if c is None or c.a2 is None else c.a2])
         else:
@@ -91,7 +100,7 @@ def build(style, n, ret, seen, rename=False, dflt=False):
             record(args)
             return outcome()
     # srpc introspects the signature for argument names: build a function with named parameters
-    names = ['a%d' % (i + 1) for i in range(n)] if style not in ('bare', 'bare_rec') else ['c']
+    names = ['a%d' % (i + 1) for i in range(n)] if style not in ('bare', 'bare_rec', 'bare_inh') else ['c']
     src = 'def f(%s):\n    return body(%s)\n' % (', '.join(names), ', '.join(names))
     if ret == 'gen':
         src = 'def f(%s):\n    for x in body(%s):\n        yield x\n' % (', '.join(names), ', '.join(names))
@@ -327,7 +336,7 @@ def run(ctx):
             continue
         dres, dargs = direct(app, c, seen)
         wires = [('xml',) + wire_xml(app, c, seen)]
-        if c['style'] not in ('bare', 'bare_rec'):          # JsonDocument cannot take a bare complex request (documented limitation)
+        if c['style'] not in ('bare', 'bare_rec', 'bare_inh'):          # JsonDocument cannot take a bare complex request (documented limitation)
             wires.append(('json',) + wire_json(app, c, seen))
         if c['style'] in ('wrapped',) and c['ret'] not in ('gen',):
             for name, prot in (('soap11-client', Soap11), ('xml-client', XmlDocument)):
